@@ -6,6 +6,7 @@ import (
 	"bufio"
 	"bytes"
 	"errors"
+	"fmt"
 	"os"
 	"os/exec"
 	"regexp"
@@ -83,6 +84,7 @@ type inprocResult struct {
 	Final     []discovery.Entry
 	FindErr   string
 	Uncovered int // HEAD entries of changes (no rule error) without a glob entry at the same path and rule position
+	GlobDup   int // glob entries that are not the first one at their path and rule position (hypothesis first_at)
 }
 
 // runInproc runs the three real functions in dir.
@@ -255,6 +257,19 @@ func findCaseParts(res *inprocResult, hook func(uid int, e discovery.Entry)) (gl
 		return out
 	}
 	glob := abs(res.Glob)
+	// hypothesis [first_at] of C03_changed_final_never_skipped: every valid glob entry is the first at its path and rule position
+	res.GlobDup = 0
+	seenPos := map[string]bool{}
+	for _, g := range res.Glob {
+		if g.PathError != nil || g.Rule.Error.Err != nil {
+			continue
+		}
+		k := fmt.Sprintf("%s|%d|%d|%d", g.Path.Name, g.Rule.Type(), g.Rule.Lines.First, g.Rule.Lines.Last)
+		if seenPos[k] {
+			res.GlobDup++
+		}
+		seenPos[k] = true
+	}
 	var cs []string
 	for _, ch := range res.Changes {
 		p := parser.NewParser(true, parser.PrometheusSchema, model.UTF8Validation)
